@@ -42,6 +42,9 @@ func probeMain() {
 		if v, _ := strconv.Atoi(os.Getenv("C05_PROBE_COPYSTALL")); v > 0 {
 			r.CopyEndStallUS = v
 		}
+		if v, _ := strconv.Atoi(os.Getenv("C05_PROBE_IDCROSS")); v > 0 {
+			r.Reps, r.IDCrossDigits, r.IDCrossAfter = 2, v, []int64{500, 1500, 4000, 9000}[i%4]
+		}
 		if os.Getenv("C05_PROBE_REPEAT") != "" && i%2 == 1 {
 			r.Reps = 2
 		}
@@ -81,6 +84,7 @@ func probeMain() {
 		}
 		for k2, rp := range rr.Reps {
 			d := diffMetrics(rr.Metrics, rp.Metrics)
+			fmt.Printf("run %d repetition %d id start %d consumed %d spans %v (first run spans %v)\n", i, k2+2, rp.Res.IDStart, rp.Res.IDsConsumed, rp.Res.KernelIDSpans, rr.Res.KernelIDSpans)
 			fmt.Printf("run %d repetition %d vs 1: t_end %.9e vs %.9e, bufs equal=%v, %d metric rows differ; by what: %v %s\n", i, k2+2,
 				math.Float64frombits(rp.Res.TimeEndBits), math.Float64frombits(rr.Res.TimeEndBits), rp.Res.BufDigestNoPID == rr.Res.BufDigestNoPID, d.total, d.byWhat, rr.RepFail)
 		}
